@@ -23,7 +23,7 @@ def gen(rng, count, tier):
         jobs, beh = [], []
         for i in range(njobs):
             key = 9000 + i
-            j = {'id': i, 'args': [key]}
+            j = {'id': i, 'args': [key], 'cbs': rng.choice([[True, True], [True, True], [True, False], [False, True], [False, False]])}
             r = rng.random()
             if r < 0.25:
                 j['expect'] = 'raise'
@@ -61,23 +61,30 @@ def oracle(rec):
         if not ready:
             return f"job {j['id']} is not ready after stop_and_join", n
         mine = cbs.get(j['id'], [])
-        if len(mine) != 1:
-            return f"job {j['id']} ({j['expect']}): {len(mine)} callback invocations: {str(mine)[:160]}", n
+        has_cb, has_ecb = j.get('cbs', [True, True])
+        want_n = 1 if ((j['expect'] == 'ok' and has_cb) or (j['expect'] != 'ok' and has_ecb)) else 0
+        if len(mine) != want_n:
+            return (f"job {j['id']} ({j['expect']}, callback={has_cb}, error_callback={has_ecb}): {len(mine)} callback "
+                    f"invocations, expected {want_n}: {str(mine)[:160]}"), n
+        if want_n == 0:
+            if j['expect'] == 'ok':
+                pass
+            mine = [['cb' if j['expect'] == 'ok' else 'ecb', j['id'], None]]
         if j['expect'] == 'ok':
             want = ['R', ['tuple', list(j['args'])], ['dict', []]] + ([['S', S.ref_call('scalar', 0, shared)[3][1]]] if shared is not None else [])
             if v != ['ok', want]:
                 return f"job {j['id']}: get() gave {str(v)[:160]}, expected {str(want)[:120]}", n
-            if mine[0][0] != 'cb' or mine[0][2] != want:
+            if mine[0][0] != 'cb' or (want_n and mine[0][2] != want):
                 return f"job {j['id']}: callback log {str(mine)[:160]}", n
         elif j['expect'] == 'raise':
             if v[0] != 'exc' or v[1] != j['exc']:
                 return f"job {j['id']}: expected {j['exc']} from get(), got {str(v)[:160]}", n
-            if mine[0][0] != 'ecb' or mine[0][2] != j['exc']:
+            if mine[0][0] != 'ecb' or (want_n and mine[0][2] != j['exc']):
                 return f"job {j['id']}: error callback log {str(mine)[:160]}", n
         else:
             if v[0] != 'exc' or v[1] != 'TimeoutError':
                 return f"job {j['id']}: expected TimeoutError, got {str(v)[:160]}", n
-            if mine[0][0] != 'ecb' or mine[0][2] != 'TimeoutError':
+            if mine[0][0] != 'ecb' or (want_n and mine[0][2] != 'TimeoutError'):
                 return f"job {j['id']}: error callback log {str(mine)[:160]}", n
     return None, n
 
